@@ -335,10 +335,15 @@ def run_impl(case, deep=None):
             creds.clear()
             creds.update({k: ([r + '_decoy' for r in v if isinstance(r, str)] if isinstance(v, list) else v)
                           for k, v in real_c.items() if k != 'system_scope'})
+        # ... and so does every option that is read per call: the warm-up runs under the other payload encoding
+        ct = conf.oslo_policy.remote_content_type
+        conf.set_override('remote_content_type', 'application/json' if ct != 'application/json'
+                          else 'application/x-www-form-urlencoded', group='oslo_policy')
         try:
             e.enforce(rule, target, creds, False)
         except Exception:   # noqa
             pass
+        conf.set_override('remote_content_type', ct, group='oslo_policy')
         target.clear()
         target.update(real_t)
         if real_c is not None:
